@@ -36,7 +36,7 @@ CHECKS = {
              "resolver (sync and async back-ends, coroutine state machines included) no undischarged panic site is reachable, "
              "across the crate boundary into simple_dns; no Display/Debug impl run by to_string() on received names constructs "
              "fmt::Error; LockResult::unwrap sites are discharged because no panic site is reachable from code that runs under a "
-             "guard. Decides the panic-freedom clause for every datagram and store state.",
+             "guard; every loop reached while handling one datagram (the receive / wait loops themselves excepted) has a progress measure. Decides the panic-freedom clause for every datagram and store state.",
         note=TB + " Does not decide 'any reply produced is a parseable DNS message' (C02/C03). Sites excluded by a stated "
              "precondition are listed in tables/assumed_preconditions.tsv and in the evidence; sites inside tokio::select! "
              "scaffolding are treated as external code; three async buf[..count] sites are audited with a structural predicate.",
@@ -113,7 +113,7 @@ CHECKS = {
              "points only wrap the writer ones; no Result in the writer graph is dropped; no panic site is reachable from the four "
              "entry points; the RDLENGTH back-patch seeks to the captured positions.",
         note=TB + " A-SEEK: a writer's stream position advances by the bytes written and seek(Start(p)) moves it to p. TXT's len() "
-             "(a cached field) is listed as not decided. Byte equality of the entry points for arbitrary Write impls beyond R3/R6 "
+             "returns a cached field: the sites that may construct a TXT or write the field form a closed, form-checked set. Byte equality of the entry points for arbitrary Write impls beyond R3/R6 "
              "is not decided. The u16 addition in write_header is an assumed precondition (within DNS size limits).",
         ref="DESIGN.md section 4 C04"),
     "C10": dict(
@@ -253,7 +253,7 @@ def main():
         "not_applicable": na,
         "notes": "All checks are static: /repo is type-checked by the driver, never executed. Exit 2 = infrastructure error "
                  "(tree does not compile / driver missing). Functions that are not in tables/functions.tsv (helpers extracted by a "
-                 "later refactoring) are inlined into their callers before analysis. Tested both ways: seeded/ (73 property-breaking "
+                 "later refactoring) are inlined into their callers before analysis. Tested both ways: seeded/ (89 property-breaking "
                  "changes, RESULTS.json) and neutral/ (behaviour-preserving refactorings that must stay silent).",
     }
     json.dump(m, open(os.path.join(VERIF, "MANIFEST.json"), "w"), indent=1)
